@@ -223,9 +223,17 @@ pub fn execute<S: Scenario>(s: &S, prefix: &[u16]) -> ExecResult<S::Obs> {
         .lock()
         .unwrap()
         .push((me, std::time::Instant::now(), s.name(), prefix.to_vec()));
-    let r = execute_inner(s, prefix);
-    RUNNING.lock().unwrap().retain(|r| r.0 != me);
-    r
+    // removed on every way out, also when something unwinds through here
+    struct Done(std::thread::ThreadId);
+    impl Drop for Done {
+        fn drop(&mut self) {
+            if let Ok(mut g) = RUNNING.lock() {
+                g.retain(|r| r.0 != self.0);
+            }
+        }
+    }
+    let _done = Done(me);
+    execute_inner(s, prefix)
 }
 
 fn execute_inner<S: Scenario>(s: &S, prefix: &[u16]) -> ExecResult<S::Obs> {
